@@ -125,7 +125,14 @@ W = {
 rows = []
 for k in sorted(det, key=lambda s: (s.split('-')[0], s.split('-')[1])):
     v = det[k]
-    what, add = W.get(k, ("(see `seeded/%s/meta.json`)" % k, ""))
+    what, add = W.get(k, (None, ""))
+    if what is None:
+        try:
+            sm = json.load(open(V + "/seeded/%s/agent_meta.json" % k)).get("summary", "")
+            sm = " ".join(sm.split())
+            what = (sm[:150] + "…") if len(sm) > 150 else sm
+        except Exception:
+            what = "(see `seeded/%s/meta.json`)" % k
     s = v.get("strengthened")
     if s and not add:
         add = (v.get("strengthening") or "")[:120]
